@@ -58,11 +58,16 @@ def judge_scripts(scripts, devs, custom="<<>>", setup=None, roundtrip=False):
     outs_all, stats = tlc_judge([l[0] for l in lexed], devs, custom)
     p = I.new_parser()
     recs = []
+    refs = []
+    stats["refs"] = refs
     cnt = {"parses": 0, "acc": 0, "rej": 0, "dc": 0, "missing": 0}
     for data, (toks, spans, note), outs in zip(scripts, lexed, outs_all):
         if outs is None:
             cnt["missing"] += 1
+            refs.append(None)
             continue
+        r0 = [q for q in outs if not q[0]][0]
+        refs.append({"v": r0[1], "why": r0[2], "irr": r0[5], "note": sorted(note), "devpaths": len(outs) > 1})
         o = I.run_parse(p, data, rt=roundtrip)
         cnt["parses"] += 1
         ref = [q for q in outs if not q[0]][0]
